@@ -114,6 +114,10 @@ def check_case(case):
                 if active(fid):
                     known = known or fid
                     continue
+        if fl != want and b == "etree" and obs.minidom_evicts_encoding(raw[key]) and active("C04-dom-colon-attrs"):
+            # the same minidom limitation where it changes the PARSE: the evicted attribute is annotation-xml's encoding
+            known = known or "C04-dom-colon-attrs"
+            continue
         if fl != want:
             d = obs.first_diff(want, fl)
             kind = "%s/%s" % (d[1][1] if d[1] else "-", d[2][1] if d[2] else "-")
